@@ -679,3 +679,38 @@ def chess_evalcalls(board=None, extra=None):
     if extra:
         ev.update(extra)
     return ev
+
+
+def position_constructor_cases(F, name):
+    """Evaluate Position::<name> (anchored helpers it forwards to expanded) on a grid of concrete arguments.
+    Returns [(args, result normal form)] ; result is ("pos", r, c) / Some(pos) / None / a panic call / something undecided."""
+    from . import inline
+    P = "chess::position::Position::"
+    fn = inline.expand_known(F, P + name, [P + "new", P + "new_unsafe", P + "new_assert", P + "new_unchecked"])
+    h = {"params": fn["hir"]["params"], "body": inline.body_as_value(fn["hir"], fn["hir"]["body"])}
+    nf = hir.Exec(h, F).run()
+    params = [p["pat"].get("name") for p in fn["hir"]["params"]]
+    out = []
+    grid = [-9, -1, 0, 3, 7, 8, 9]
+
+    def ctor(t):
+        # Self(r, c) -> ("pos", r, c)
+        if isinstance(t, tuple) and t and t[0] == "ctor" and str(t[1]).endswith("position::Position") and len(t[2]) == 2:
+            a, b = hir.sym_int(t[2][0]), hir.sym_int(t[2][1])
+            if a is not None and b is not None:
+                return ("pos", a, b)
+        if isinstance(t, tuple):
+            return tuple(ctor(x) if isinstance(x, tuple) else x for x in t)
+        return t
+    if name in ("add", "add_unsafe"):
+        for r, c in ((0, 0), (3, 4), (7, 7), (0, 7)):
+            for dr, dc in ((-1, 0), (1, 0), (0, -1), (0, 1), (2, 1), (-2, -1), (7, 7), (-7, -7), (1, -1)):
+                a = {("field", ("var", params[0]), "0"): ("lit", r), ("field", ("var", params[0]), "1"): ("lit", c),
+                     ("field", ("var", params[1]), "0"): ("lit", dr), ("field", ("var", params[1]), "1"): ("lit", dc)}
+                out.append(((r, c, dr, dc), ctor(hir.fold(nf, a))))
+    else:
+        for r in grid:
+            for c in grid:
+                a = {("var", params[0]): ("lit", r), ("var", params[1]): ("lit", c)}
+                out.append(((r, c), ctor(hir.fold(nf, a))))
+    return out
